@@ -327,6 +327,12 @@ theorem mlog_emit3 (a : Nat) (c : Ctx) (i1 i2 i3 : SlabID) :
   have := ((MLog.store a c i1).trans (MLog.store a _ i2)).trans (MLog.store a _ i3)
   simpa using this
 
+theorem lastAction_store_last (E : List Eff) (id : SlabID) : lastAction (E ++ [.store id]) id = some true := by
+  rw [lastAction_concat_store, if_pos rfl]
+
+theorem lastAction_store_self (id : SlabID) : lastAction [.store id] id = some true :=
+  lastAction_store_last [] id
+
 /-- plain store of the parent -/
 theorem mtail_plain_acct {a c : Nat} {m1 m2 : MMetaSlab (MTree r d)} {e : MSlabView r}
     (hid : m2.hdr.id = m1.hdr.id) (hch : m2.children = m1.children)
@@ -353,7 +359,7 @@ theorem mtail_split_acct {a : Nat} {m1 m2 : MMetaSlab (MTree r d)} {A B : List (
     (hold : ∀ id ∈ AList.keys ((m1.hdr.id, e) :: m1.children.flatMap (MTree.slabs d)), Old a c.ctr id) :
     ∃ E, MLog a c c2 E [] ∧
       MAcct a c.ctr c2.ctr ((m1.hdr.id, e) :: m1.children.flatMap (MTree.slabs d))
-        (MTree.slabs (d + 1) m2) E [] := by
+        (MTree.slabs (d + 1) m2) E [] ∧ lastAction E m1.hdr.id = some true := by
   unfold MMetaSlab.splitChildSlab at h
   cases hsp : MTree.split d child' c with
   | error err => simp [hsp, bind, Except.bind] at h
@@ -363,7 +369,8 @@ theorem mtail_split_acct {a : Nat} {m1 m2 : MMetaSlab (MTree r d)} {A B : List (
     obtain ⟨rfl, rfl⟩ := h
     obtain ⟨hs1, hs2, hs3, rfl⟩ := msplit_struct d child' c l rr cs hsp
     rw [haddr] at hs3
-    refine ⟨[.alloc a ⟨a, c.ctr + 1⟩, .store (MTree.hdr d l).id, .store (MTree.hdr d rr).id, .store m1.hdr.id], ?_, ?_⟩
+    refine ⟨[.alloc a ⟨a, c.ctr + 1⟩, .store (MTree.hdr d l).id, .store (MTree.hdr d rr).id, .store m1.hdr.id], ?_, ?_,
+      lastAction_store_last [.alloc a ⟨a, c.ctr + 1⟩, .store (MTree.hdr d l).id, .store (MTree.hdr d rr).id] m1.hdr.id⟩
     · have := (MLog.alloc a c).trans (mlog_emit3 a (c.alloc a).2 (MTree.hdr d l).id (MTree.hdr d rr).id m1.hdr.id)
       rw [haddr]
       simpa using this
@@ -436,9 +443,10 @@ theorem mtail_rebal_acct {a : Nat} {m1 m2 : MMetaSlab (MTree r d)} {P Q : List (
     (hold : ∀ id ∈ AList.keys ((m1.hdr.id, e) :: m1.children.flatMap (MTree.slabs d)), Old a c.ctr id) :
     ∃ E, MLog a c c2 E [] ∧
       MAcct a c.ctr c2.ctr ((m1.hdr.id, e) :: m1.children.flatMap (MTree.slabs d))
-        (MTree.slabs (d + 1) m2) E [] := by
+        (MTree.slabs (d + 1) m2) E [] ∧ lastAction E m1.hdr.id = some true := by
   obtain ⟨l', r', ⟨hs1, hs2, hs3⟩, hkids, hid, rfl⟩ := mrebal_inv h
-  refine ⟨[.store (MTree.hdr d l').id, .store (MTree.hdr d r').id, .store m1.hdr.id], mlog_emit3 _ _ _ _ _, ?_⟩
+  refine ⟨[.store (MTree.hdr d l').id, .store (MTree.hdr d r').id, .store m1.hdr.id], mlog_emit3 _ _ _ _ _, ?_,
+    lastAction_store_last [.store (MTree.hdr d l').id, .store (MTree.hdr d r').id] m1.hdr.id⟩
   have hk2 : ((P ++ l :: rr :: Q).set li l').set (li + 1) r' = P ++ [l', r'] ++ Q := by
     rw [set_mid hli]
     have : P ++ l' :: rr :: Q = (P ++ [l']) ++ rr :: Q := by simp
@@ -483,7 +491,8 @@ theorem mtail_merge_acct {a : Nat} {m1 : MMetaSlab (MTree r d)} {P Q : List (MTr
     ∃ E, MLog a c (m1.mergeChildren l rr li (li + 1) c).2 E [] ∧
       MAcct a c.ctr (m1.mergeChildren l rr li (li + 1) c).2.ctr
         ((m1.hdr.id, e) :: m1.children.flatMap (MTree.slabs d))
-        (MTree.slabs (d + 1) (m1.mergeChildren l rr li (li + 1) c).1) E [] := by
+        (MTree.slabs (d + 1) (m1.mergeChildren l rr li (li + 1) c).1) E [] ∧
+      lastAction E m1.hdr.id = some true := by
   obtain ⟨hs1, hs2⟩ := mmerge_struct d l rr
   have e1 : P ++ l :: rr :: Q = P ++ [l, rr] ++ Q := by simp
   have e2 : ∀ x : MTree r d, P ++ x :: Q = P ++ [x] ++ Q := by simp
@@ -504,7 +513,10 @@ theorem mtail_merge_acct {a : Nat} {m1 : MMetaSlab (MTree r d)} {P Q : List (MTr
     intro heq
     have := hcnt (MTree.hdr d l).id
     simp [mroots, kc_cons, heq, hrid] at this
-  refine ⟨[.store (MTree.hdr d l).id, .store m1.hdr.id] ++ [.remove (MTree.hdr d rr).id], ?_, ?_⟩
+  refine ⟨[.store (MTree.hdr d l).id, .store m1.hdr.id] ++ [.remove (MTree.hdr d rr).id], ?_, ?_, ?_⟩
+  rotate_left 2
+  · rw [lastAction_concat_remove, if_neg (fun h => hrid h.symm)]
+    exact lastAction_store_last [.store (MTree.hdr d l).id] m1.hdr.id
   · rw [mmerge_ctx, hs2]
     have := ((MLog.store a c (MTree.hdr d l).id).trans (MLog.store a _ m1.hdr.id)).trans
       (MLog.remove a _ (MTree.hdr d rr).id)
@@ -542,7 +554,7 @@ theorem mtail_mor_acct {a : Nat} {m1 m2 : MMetaSlab (MTree r d)} {A B : List (MT
     (hold : ∀ id ∈ AList.keys ((m1.hdr.id, e) :: m1.children.flatMap (MTree.slabs d)), Old a c.ctr id) :
     ∃ E, MLog a c c2 E [] ∧
       MAcct a c.ctr c2.ctr ((m1.hdr.id, e) :: m1.children.flatMap (MTree.slabs d))
-        (MTree.slabs (d + 1) m2) E [] := by
+        (MTree.slabs (d + 1) m2) E [] ∧ lastAction E m1.hdr.id = some true := by
   obtain ⟨l, rr, li, hpos, hact⟩ := mmor_cases m1 child' k u c m2 c2 h
   have hshape : ∃ P Q, m1.children = P ++ l :: rr :: Q ∧ P.length = li := by
     rcases hpos with ⟨rfl, rfl, hr⟩ | ⟨hli, hl, rfl⟩
